@@ -93,6 +93,33 @@ def moved_ordered(d):
     return od
 
 
+import collections as _c
+
+Row = _c.namedtuple("Row", ["id", "class", "name"], rename=True)  # the invalid name becomes the field `_1`
+
+
+@dataclasses.dataclass
+class Indexable:  # a structured class that offers subscript access but is not iterable
+    x: int
+    y: int
+
+    def __getitem__(self, i):
+        return (self.x, self.y)[i]
+
+
+class SlotsIndexable:
+    __slots__ = ("a", "b")
+
+    def __getitem__(self, key):
+        return getattr(self, key)
+
+
+def slots_indexable(a, b):
+    o = SlotsIndexable()
+    o.a, o.b = a, b
+    return o
+
+
 def gen(xs):
     for x in xs:
         yield x
